@@ -185,9 +185,11 @@ def _parts(pid, *extra):
     PROPS[pid]["parts"] = [dict(pkg="props", test=PROPS[pid]["test"])] + list(extra)
 
 
-_parts("C01", dict(pkg="props", test="TestC01Sweep", checks_scale=0.5), dict(pkg="props", test="TestC01Big", single=True))
+_parts("C01", dict(pkg="props", test="TestC01Sweep", checks_scale=0.5), dict(pkg="props", test="TestC01Big", single=True),
+       dict(pkg="props", test="TestC01FullBuffer", single=True), dict(pkg="props", test="TestC01Overflow", single=True))
 PROPS["C01"]["rule"] += ("; plus a name-length sweep (entries of drawn lengths 1..255 incl. every 16k-1/16k/16k+1, multi-byte and non-UTF-8 units, created/written/removed inside plugged bursts so that each is decoded at a "
-                         "different buffer offset) and bursts of 600 (quick) / 2000 (thorough) operations handled in a few reads")
+                         "different buffer offset) and bursts of 600 (quick) / 2000 (thorough) operations handled in a few reads; a burst of 8892 name-less 16-byte records (two watched files) that fills the 64 KiB read buffer exactly, twice; "
+                         "and an overflow burst after which six more changes are queued behind the overflow marker: all of those must be delivered and ErrEventOverflow announced")
 _parts("C08", dict(pkg="props", test="TestC08Sweep", checks_scale=0.5))
 PROPS["C08"]["rule"] += "; plus the name-length sweep of C01 with the Add argument drawn from 8 spellings (relative, ./, trailing slashes, absolute, through a symlink, ../r/d0)"
 _parts("C10", dict(pkg="props", test="TestC10Overflow", single=True))
